@@ -19,7 +19,8 @@ writes its table parameter (_lookup_unit_symbol) is never handed a global table;
 registry's class only raise TypeError and default_unit_registry is an instance of it; (R4) binary operations create missing
 units in the other operand's registry, build results in the left operand's registry, never call a registry mutator and
 never re-point an existing Unit object to another registry; (R5) add_symbols / add_constants only build objects in the
-given registry and only write into the given namespace."""
+given registry and only write into the given namespace.
+(R1, extended) a helper that hands back its argument is classified by the actual argument (the unpickled table reaches the registry only through a fresh dict); a deep copy of a Unit owns a deep copy of its registry on every deep path; (R4, extended) decision table of Unit * / Unit over operands of different registries: the result is created in the left operand's registry; (R6) the unit attached to a ufunc result comes from the unit rule or is re-created in that unit's registry (shared with C07-R4)."""
 LEVEL_NOTE = """Undecided: interleavings as such (irrelevant if no table is shared). UnitRegistry(lut=...) stores a
 caller-supplied dict by reference - aliasing chosen by the caller (public API), recorded as a note; the rule is about the
 library's own construction sites. UnitSystem objects registered in the process-global unit_system_registry are shared by
